@@ -49,10 +49,10 @@ class Fixture(object):
         self.printed = {}
         for c in self.callables:
             p, text, pos = layout_text(c.body, case=case, style=style)
-            self.printed[c.kind + ':' + c.name] = (p, text, pos)
+            self.printed[c.key] = (p, text, pos)
         D = c15_callables.diagram_with(self.callables, None, second_group=True)
         D['irdt'] = True
-        key = lambda c: c.kind + ':' + c.name
+        key = lambda c: c.key
         src = dict((key(c), (texts or {}).get(key(c), self.printed[key(c)][1])) for c in self.callables)
         self.source = src
         # diagram_with stored c.text (single-line); replace by the chosen text
@@ -60,10 +60,12 @@ class Fixture(object):
             f['body'] = src['function:' + f['name']]
         for e in D['ees']:
             for b in e['bridges']:
-                b['body'] = src['bridge:' + b['name']]
+                b['body'] = src['bridge:' + b['name'] if e['kl'] != 'ZEE' else 'bridge:ZEE.' + b['name']]
         for c in D['classes']:
             for o in c['ops']:
                 k = ('instop:' if o['instance'] else 'classop:') + o['name']
+                if k == 'classop:cop' and c['kl'] == 'B':
+                    k = 'classop:B.cop'
                 o['body'] = src[k]
             for a in c['attrs']:
                 if a.get('derived') is not None:
@@ -91,9 +93,9 @@ class Fixture(object):
         if c.kind == 'function':
             return m.select_any('S_SYNC', xtuml.where_eq(Name=c.name))
         if c.kind == 'bridge':
-            return m.select_any('S_BRG', xtuml.where_eq(Name=c.name))
+            return m.select_any('S_BRG', lambda sel: sel.Name == c.name and one(sel).S_EE[19]().Key_Lett == c.cls)
         if c.kind in ('classop', 'instop'):
-            return m.select_any('O_TFR', xtuml.where_eq(Name=c.name))
+            return m.select_any('O_TFR', lambda sel: sel.Name == c.name and one(sel).O_OBJ[115]().Key_Lett == c.cls)
         if c.kind in ('state', 'txn'):
             sm = c15_callables.SM_DEFS[c.sm[0]]
             ci = [k for k, cl in enumerate(self.D['classes']) if cl['kl'] == sm['cls']][0]
